@@ -325,8 +325,8 @@ def boot_move(label):
     raise Inconclusive("unknown Bootstrap label " + label)
 
 
-def boot_case(cid, consts, schedule=None, rand=None):
-    c = {"id": cid, "listeners": sorted(consts["Listeners"]), "program": consts["Program"],
+def boot_case(cid, consts, schedule=None, rand=None, active_panics=False):
+    c = {"id": cid, "active_panics": active_panics, "listeners": sorted(consts["Listeners"]), "program": consts["Program"],
          "max_incoming": consts["MaxIncoming"], "shutdown": consts["WithShutdown"], "max_chans": consts["MaxChans"]}
     if schedule is not None:
         c["schedule"] = schedule
@@ -382,7 +382,9 @@ def check_C13(cx):
     big = [("r2", boot_consts([1, 2], [L(1), C, L(2), C], 3, 5)), ("r2x", boot_consts([1, 2], [L(1), L(2), X(2), C], 2, 3)),
            ("r3", boot_consts([1, 2, 3], [L(1), L(2), C, L(3)], 3, 4))]
     for name, consts in big:
-        cases = [boot_case("%s-r%d" % (name, i), consts, rand={"seed": cx.rnd.randrange(1 << 40), "policy": "uniform"}) for i in range(60 if quick else 600)]
+        # every third case: a user handler panics in HandleActive and the application's exception handler keeps the
+        # connection - the channel must still be known to the holder and closed by Shutdown
+        cases = [boot_case("%s-r%d" % (name, i), consts, rand={"seed": cx.rnd.randrange(1 << 40), "policy": "uniform"}, active_panics=(i % 3 == 2)) for i in range(60 if quick else 600)]
         rs = run_driver(cx.driver, "boot", cases, cx.wd, tag=name)
         cx.absorb(rs, cases)
         validate(cx, "T" + name, "TraceBootstrap", consts, rs, inv, {"a": "reset", "p": ""})
